@@ -41,6 +41,10 @@ THEOREMS = [
     "C13_matches_is_cargo_gap",
     "C13_version_policy_is_cargo",
     "C13_pre_compare_total_order",
+    "C13_matches_order_irrelevant",
+    "C13_matches_conjunction",
+    "C13_matches_conjunction_release",
+    "C13_matches_star",
 ]
 
 HDR = ("From Typify Require Import Algo.Semver Algo.RustExt.\n"
